@@ -59,7 +59,7 @@ def outcome_class(op, r):
     if op in ("gets", "gats"):
         return "miss" if v == (D, CD) or v == (None, None) else "hit"
     if op in ("get_many", "gets_many"):
-        return "n%d" % len(v)
+        return "n%d" % len(v) if isinstance(v, dict) else repr(v)
     return repr(v)
 
 
@@ -424,6 +424,16 @@ def shard(tier, seed, idx, n):
             cfg["key_prefix"] = rng.choice([b"p:", b"ns-"])
         run_history(res, stacks[i % len(stacks)], cfg, random_history(rng), "random")
         res.count("random_histories")
+    # multi-key calls with nothing in them: the documented empty answers ({} / [] / True), before and after other traffic
+    for stack in ("client", "pooled", "hash", "hashpooled"):
+        for dn in (True, False):
+            work += 1
+            if work % n != idx:
+                continue
+            for empty in (("get_many", ()), ("gets_many", ()), ("delete_many", ()), ("set_many", ()), ("delete_many", (), "nr"), ("set_many", (), "nr")):
+                run_history(res, stack, {"default_noreply": dn}, [empty], "empty")
+                run_history(res, stack, {"default_noreply": dn}, [("set", "a", b"1", 0), empty, ("get", "a"), empty], "empty")
+                res.count("empty_multi_key_calls", 3)
     for i, nkeys in enumerate((127, 128, 129, 130, 255, 256, 257, 300, 513, 1025)):
         work += 1
         if work % n != idx:
